@@ -38,6 +38,7 @@ type MBlob struct {
 
 type MMan struct {
 	data      []byte
+	mts       map[string]bool // every media type it was pushed with (a re-push may or may not replace the recorded type)
 	mt        string
 	view      manView
 	born      time.Time
@@ -68,6 +69,8 @@ type MRepo struct {
 	tags  map[string]string
 	// digests explicitly deleted through the blob endpoint while still referenced as manifests
 	blobDeleted map[string]bool
+	// why a present manifest might be affected by a known class of defect (for signatures only)
+	orphans map[string]string
 }
 
 type Model struct {
@@ -87,7 +90,7 @@ func newModel(k Knobs) *Model {
 func (m *Model) repo(name string) *MRepo {
 	r, ok := m.repos[name]
 	if !ok {
-		r = &MRepo{name: name, blobs: map[string]*MBlob{}, mans: map[string]*MMan{}, tags: map[string]string{}, blobDeleted: map[string]bool{}}
+		r = &MRepo{name: name, blobs: map[string]*MBlob{}, mans: map[string]*MMan{}, tags: map[string]string{}, blobDeleted: map[string]bool{}, orphans: map[string]string{}}
 		m.repos[name] = r
 	}
 	return r
@@ -112,6 +115,10 @@ func (m *Model) clone() *Model {
 		}
 		for d, x := range r.mans {
 			xx := *x
+			xx.mts = map[string]bool{}
+			for k := range x.mts {
+				xx.mts[k] = true
+			}
 			cr.mans[d] = &xx
 		}
 		for t, d := range r.tags {
@@ -119,6 +126,9 @@ func (m *Model) clone() *Model {
 		}
 		for d := range r.blobDeleted {
 			cr.blobDeleted[d] = true
+		}
+		for d, v := range r.orphans {
+			cr.orphans[d] = v
 		}
 	}
 	for _, s := range m.sess {
@@ -289,9 +299,11 @@ func (m *Model) applyManifestPut(repo string, v manVerdict, body []byte, now tim
 	if x, ok := r.mans[v.digest]; ok {
 		x.maybeGone = false
 		x.mt = v.mt
+		x.mts[v.mt] = true
 	} else {
-		r.mans[v.digest] = &MMan{data: body, mt: v.mt, view: v.view, born: r.blobs[v.digest].born, acked: now}
+		r.mans[v.digest] = &MMan{data: body, mt: v.mt, mts: map[string]bool{v.mt: true}, view: v.view, born: r.blobs[v.digest].born, acked: now}
 	}
+	delete(r.orphans, v.digest)
 	if v.tag != "" {
 		r.tags[v.tag] = v.digest
 		m.usedTags[v.tag] = true
